@@ -74,6 +74,23 @@ def child_list_rules(eng: Engine, ck: Check, rule: str):
                                                       or unparse(e) == arg0)]
         ck.ob(rule, sc, call, 'a child is removed when (and only because) its distributed connection reports CLOSED', closed and member and not other,
               f'guards {[unparse(e) for e, _, _ in gs]}', construct='remove child on CLOSED')
+    # membership is recorded before the appending function suspends: the CLOSED handler and the "a child never becomes the parent" test
+    # look the peer up in `children`, and both can run as soon as the new child's connection is read from
+    for f, call in eng.mutations_of_attr('children', ['append', 'add', 'insert']):
+        if f.cls is not dn:
+            continue
+        ck.visited(f)
+        c = eng.cfg(f)
+        s = c.suspension_between(c.entry, c.nodes_for(call)[0])
+        ck.ob(rule, f, call, 'the append follows the admission tests without a suspension inside the appending function (a peer that is being told the '
+              'branch values is already a child: its CLOSED report removes it, its branch messages cannot make it the parent)', s is None,
+              f'suspension at line {s.lineno}: a close or a branch message of that peer in the window finds it in no list' if s else '', construct='admit atomic')
+    # the CLOSED handler (and every other handler) finds its peer through get_distributed_peer
+    from . import defs
+    defs.distributed_peer_lookup(eng, ck, rule)
+    lk = [x for x in calls_on(sc.node, 'get_distributed_peer')]
+    ck.ob(rule, sc, sc.node, '_on_state_changed looks the peer up for the connection that changed state', len(lk) >= 1 and
+          all(x.args and unparse(expand_aliases(sc, x.args[0])).endswith('.connection') for x in lk), f'{[unparse(x) for x in lk]}', construct='state change peer lookup')
     # distributed_peers bookkeeping
     dp_rm = [c for f, c in eng.mutations_of_attr('distributed_peers', ['remove']) if f is sc]
     ck.ob(rule, sc, sc.node, 'a closed distributed connection is dropped from distributed_peers', len(dp_rm) == 1, '', construct='peer dropped on CLOSED')
@@ -132,11 +149,6 @@ def run(eng: Engine, ck: Check):
               'guard `len(children) >= _max_children -> reject` missing or weakened', construct='admit: below max')
         ck.ob('R-C13-ADMIT', f, call, 'only connections the peer opened to us (not requested by us) become children', nreq,
               'guard `not event.requested` missing', construct='admit: not requested')
-        # guards and append are not separated by a suspension that lets another child in
-        c = eng.cfg(f)
-        s = c.suspension_between(c.entry, c.nodes_for(call)[0])
-        ck.ob('R-C13-ADMIT', f, call, 'the append follows the admission tests without a suspension inside the appending function', s is None,
-              f'suspension at line {s.lineno}' if s else '', construct='admit atomic')
     # ---- R-C13-CACHE: potential parents accumulate (bounded deque), never replaced
     for f, st, v in eng.stores_to_attr('potential_parents'):
         if f.cls is not dn:
@@ -242,8 +254,20 @@ def run(eng: Engine, ck: Check):
     ck.ob('R-C13-ADVERT', nsp, nsp.node, 'the server is told BranchLevel(level), BranchRoot(root) from the advertised position, and ToggleParentSearch',
           ok, '', construct='server notification content')
     sfp = [n for n in walk_local(nsp.node) if isinstance(n, ast.Assign) and unparse(n.targets[0]) == SFP]
-    ok = any(isinstance(n.value, ast.IfExp) and unparse(n.value.test) == 'self.parent' and const(n.value.body) is False and const(n.value.orelse) is True
-             or unparse(n.value) in ('not self.parent', 'self.parent is None') for n in sfp)
+    def no_parent(conds) -> Optional[bool]:
+        for e_, pol_ in conds:
+            if unparse(e_) == 'self.parent':
+                return not pol_
+            a_ = cmp_atom(e_)
+            if a_ and a_[0] == 'is' and unparse(a_[1]) == 'self.parent' and is_none_const(a_[2]):
+                return pol_
+        return None
+    arms = [(conds, leaf) for n in sfp for conds, leaf in cond_values(eng, nsp, n)]
+    direct = any(unparse(leaf) in ('not self.parent', 'self.parent is None') and no_parent(conds) is None for conds, leaf in arms)
+    split = any(const(leaf) is True and no_parent(conds) is True for conds, leaf in arms) and any(const(leaf) is False and no_parent(conds) is False for conds, leaf in arms)
+    # True is never assigned while there is a parent
+    stray = [unparse(leaf) for conds, leaf in arms if const(leaf) is True and no_parent(conds) is not True]
+    ok = (direct or split) and not stray
     ck.ob('R-C13-ADVERT', nsp, nsp.node, 'parent search is requested iff there is no parent', ok, f'{[unparse(n) for n in sfp]}', construct='toggle parent search')
     sends = calls_on(nsp.node, 'send_server_messages')
     ck.ob('R-C13-ADVERT', nsp, nsp.node, 'the three messages are sent unconditionally', len(sends) == 1 and not eng.guards_at(nsp, sends[0]), '',
